@@ -374,3 +374,20 @@ Definition check_pspace (k : pcase) : bool :=
   | Ok ws, POk os => all2 wrapped_ok ws os
   | _, _ => false
   end.
+
+(* ---------------- wrapping: layout / writeable / order ---------------- *)
+Record wcase := mkWCase {
+  w_shape_ok : bool;            (* array shape equals the space shape *)
+  w_dt_arr : dt; w_dt_space : dt;
+  w_writeable : bool; w_layout : layout; w_order : option order;
+  w_err : bool;                 (* observed: ValueError *)
+  w_shares : bool }.            (* observed: np.shares_memory(arr, element.asarray()) *)
+Definition check_wrap (k : wcase) : bool :=
+  let shp := if w_shape_ok k then [2%nat] else [3%nat] in
+  let st : @store Q := [mkArr (w_dt_arr k) shp [0; 0]] in
+  let sp := ts_default [2%nat] (w_dt_space k) in
+  match t_element_lay castQ st sp 0 (w_writeable k) (w_layout k) (w_order k) with
+  | Err _ => w_err k
+  | Ok (OpTens _ id, _) => negb (w_err k) && Bool.eqb (w_shares k) (id =? 0)%nat
+  | Ok _ => false
+  end.
